@@ -1,5 +1,6 @@
 """C13 — phase corrections form a group action and autophase is replayable."""
-import random, warnings
+import random
+from common import rstr, gstr, warnings
 from gen import *
 from gen_proc import *
 from oracles import PhaseOracle, ConsistencyOracle
@@ -42,6 +43,15 @@ def streams(tier, seed):
             for L in range(1, 9):
                 if n % L == 0:
                     out.append([a, op_simple("phase_cycle", a, dim=dim, rp=[rng.randint(0, 3) for _ in range(L)])])
+    # autophase: mis-phased lines, the dimension in every position; the model applies the RECORDED angles through the
+    # factor table of `phase`
+    for shape, k in ([([24], 0), ([16, 2], 0), ([3, 16], 1)] + ([([2, 16, 2], 1), ([32], 0)] if tier == "thorough" else [])):
+        dims = ["f2" if i == k else "d%d" % i for i in range(len(shape))]
+        x, vals = lorentz_data(rng, shape, k, [25.0, -40.0, 70.0, 10.0, 200.0, -310.0])
+        a = {"op": "new", "id": 0, "dims": dims, "shape": list(shape),
+             "coords": [[rstr(v) for v in (x if i == k else np.arange(s, dtype=float))] for i, s in enumerate(shape)],
+             "values": [gstr(v) for v in vals.reshape(-1)]}
+        out.append([a, op_autophase(a, "f2")])
     return out
 
 
